@@ -295,6 +295,8 @@ def check(ctx):
     c01b.layout_rules(rep, model, ctx.tier == 'thorough')
     c01b.guard_rules(rep, model)
     c01b.pointwise_rules(rep, model)
+    c01b.copy_rules(rep, model)
+    c01b.scalar_type_rules(rep, model)
     return rep
 
 
